@@ -19,7 +19,7 @@ def run(tier, seed):
     chk = Check('C02', tier, seed, 'model_checking')
     rng = random.Random(seed * 7919 + 2)
     quick = tier != 'thorough'
-    ngen = 40 if quick else 300
+    ngen = 40 if quick else 200
     items = []
     for name, src, args in runner.corpus_programs(('example', 'ok')):
         items.append((name + '|direct', src, list(args)))
@@ -36,7 +36,7 @@ def run(tier, seed):
             items.append(('gen:%d|direct' % s, src, [lvl]))
             items.append(('gen:%d|indirect' % s, src, [lvl, '-findirect-start-ptr']))
 
-    for i in range(10 if quick else 80):
+    for i in range(10 if quick else 50):
         s = rng.randrange(1 << 30)
         src = genprog.gen_break_program(s)[1]
         lvl = rng.choice(['-O0', '-O1', '-O2', '-O3'])
@@ -47,8 +47,8 @@ def run(tier, seed):
         # two longer inputs for the adversarial splits (every cut point, all ones, random)
         return runner.walk_inputs(p, 2, 40, rng)
 
-    out = ctrace.run_pipeline(chk, items, rng, seed, nwalks=4 if quick else 10, maxlen=8 if quick else 10, chunk_mode='all',
-                              chunk_limit=40 if quick else 600, extra_inputs=extra_inputs, keep_records=True, cover=10 if quick else 24)
+    out = ctrace.run_pipeline(chk, items, rng, seed, nwalks=4 if quick else 8, maxlen=8 if quick else 10, chunk_mode='all',
+                              chunk_limit=40 if quick else 160, extra_inputs=extra_inputs, keep_records=True, cover=10 if quick else 16)
     try:
         # direct comparison of chunking-independent summaries
         groups = collections.defaultdict(list)
